@@ -361,6 +361,18 @@ impl Tag {
         }
     }
 
+    /// Returns whether multi-octet identifier octets are in minimal form.
+    ///
+    /// The multi-octet form is only to be used for tag numbers of 31 and
+    /// more and the first subsequent octet must not have all its seven
+    /// value bits cleared (X.690, 8.1.2.2 and 8.1.2.4.2 c). Otherwise
+    /// different octets would produce different tags for the same class
+    /// and number.
+    fn is_minimal(data: &[u8; 4]) -> bool {
+        data[1] > Tag::MAX_VAL_FOURTH_OCTET as u8
+            && data[1] != Tag::LAST_OCTET_MASK
+    }
+
     /// Takes an optional tag from the beginning of a source.
     ///
     /// Upon success, returns both the tag and whether the value is
@@ -379,6 +391,11 @@ impl Tag {
             for i in 1..=3 {
                 data[i] = source.take_u8()?;
                 if data[i] & Tag::LAST_OCTET_MASK == 0 {
+                    if !Tag::is_minimal(&data) {
+                        return Err(source.content_err(
+                            "tag value not in minimal form"
+                        ))
+                    }
                     return Ok(Some((Tag(data), constructed)));
                 }
             }
@@ -437,6 +454,11 @@ impl Tag {
                     ))
                 }
                 i += 1;
+            }
+            if !Tag::is_minimal(&data) {
+                return Err(source.content_err(
+                    "tag value not in minimal form"
+                ))
             }
         }
         let (tag, constructed) = (
